@@ -17,6 +17,7 @@ package header
 import (
 	"net"
 	"net/http"
+	"strings"
 
 	"github.com/google/martian/v3"
 )
@@ -33,13 +34,13 @@ import (
 func NewForwardedModifier() martian.RequestModifier {
 	return martian.RequestModifierFunc(
 		func(req *http.Request) error {
-			if v := req.Header.Get("X-Forwarded-Proto"); v == "" {
+			if v := strings.Join(req.Header["X-Forwarded-Proto"], ", "); v == "" {
 				req.Header.Set("X-Forwarded-Proto", req.URL.Scheme)
 			}
-			if v := req.Header.Get("X-Forwarded-Host"); v == "" {
+			if v := strings.Join(req.Header["X-Forwarded-Host"], ", "); v == "" {
 				req.Header.Set("X-Forwarded-Host", req.Host)
 			}
-			if v := req.Header.Get("X-Forwarded-Url"); v == "" {
+			if v := strings.Join(req.Header["X-Forwarded-Url"], ", "); v == "" {
 				req.Header.Set("X-Forwarded-Url", req.URL.String())
 			}
 
@@ -48,7 +49,7 @@ func NewForwardedModifier() martian.RequestModifier {
 				xff = req.RemoteAddr
 			}
 
-			if v := req.Header.Get("X-Forwarded-For"); v != "" {
+			if v := strings.Join(req.Header["X-Forwarded-For"], ", "); v != "" {
 				xff = v + ", " + xff
 			}
 
